@@ -195,7 +195,7 @@ def evaluate(ctx, rng, idx, h):
         ctx.check("C12:degree", gi == ind and isinstance(gi, dict) and len(gi) == len(S.nodes), "C12:in_degree_sequence", lambda: wit((kw, gi, ind)))
         ctx.check("C12:degree", go == outd and isinstance(go, dict) and len(go) == len(S.nodes), "C12:out_degree_sequence", lambda: wit((kw, go, outd)))
     # ---- signature -------------------------------------------------------------------------
-    for m in [None] + list(range(2, 9)) + [np.int64(rng.randint(2, 8))]:  # the bound also as a NumPy integer (sizes usually come from arrays)
+    for m in [None] + list(range(2, 9)) + [np.int64(rng.randint(2, 8)), rng.choice([65, 66, 90, 130, 257, 300])]:  # the bound also as a NumPy integer (sizes usually come from arrays)
         r = call(dm.hyperedge_signature_vector, h, m) if m is not None else call(dm.hyperedge_signature_vector, h)
         mm = mx if m is None else int(m)
         if isinstance(r, _Raised):
